@@ -1,31 +1,43 @@
-"""C03 - gradients have their array's shape; broadcast contributions are summed."""
+"""C03 - gradients have their array's shape; broadcast contributions are summed.
+
+Cost note: every use of a rank-2 operand costs several `sliced_op` calls in the pass (5-10 s of
+symex and ~0.5 GB each), so the quick core keeps multi-use obligations on [2,2] partners and
+single uses on the rank-3/4 classes; the thorough pool repeats every class with [2,3] / rank-3
+partners, uses 1..3 and passes 1..2."""
 
 
 def generate(G):
     # (x dims, partner dims, class)
     classes = [
+        ([2], [2, 2], "lower-rank"),
+        ([1, 2], [2, 2], "leading-unit"),
+        ([2, 1], [2, 2], "trailing-unit"),
+        ([1], [2, 2], "all-unit-rank1"),
+        ([1, 1], [2, 2], "all-unit-rank2"),
+        ([2, 2], [2, 2], "no-broadcast"),
+        ([2, 1], [1, 2], "both-sides"),
         ([3], [2, 3], "lower-rank"),
         ([1, 3], [2, 3], "leading-unit"),
         ([2, 1], [2, 3], "trailing-unit"),
+        ([2, 1], [1, 3], "both-sides"),
         ([2, 1, 2], [2, 2, 2], "interior-unit"),
-        ([1], [2, 2], "all-unit-rank1"),
-        ([1, 1], [2, 2], "all-unit-rank2"),
         ([2, 2], [2, 2, 2], "rank2-in-rank3"),
         ([1, 2], [2, 2, 2], "rank2-leading-unit-in-rank3"),
-        ([2, 3], [2, 3], "no-broadcast"),
+        ([2, 1], [2, 2, 2], "rank2-trailing-unit-in-rank3"),
         ([1, 2, 1], [2, 2, 2], "two-units"),
         ([2], [2, 2, 2], "rank1-in-rank3"),
         ([1, 1, 2], [2, 2, 2], "two-leading-units"),
-        ([2, 1], [1, 3], "both-sides"),
-        ([2, 1], [2, 2, 2], "rank2-trailing-unit-in-rank3"),
         ([2, 1, 2], [2, 2, 1, 2], "rank3-interior-unit-in-rank4"),
         ([2, 1, 1, 2], [2, 2, 2, 2], "rank4-two-interior-units"),
     ]
-    quick = {("lower-rank", 1, 1), ("lower-rank", 2, 1), ("leading-unit", 1, 1), ("leading-unit", 2, 1),
-             ("trailing-unit", 2, 1), ("interior-unit", 2, 1), ("all-unit-rank1", 2, 1), ("all-unit-rank2", 3, 1),
-             ("rank2-in-rank3", 1, 1), ("rank2-in-rank3", 2, 2), ("rank2-leading-unit-in-rank3", 2, 1),
-             ("lower-rank", 3, 2), ("no-broadcast", 2, 2), ("leading-unit", 3, 2), ("two-units", 2, 1),
-             ("rank1-in-rank3", 2, 1), ("both-sides", 2, 1), ("rank2-trailing-unit-in-rank3", 1, 1)}
+    quick = {
+        ("2", "2x2", 1, 1), ("2", "2x2", 2, 1), ("2", "2x2", 3, 2),
+        ("1x2", "2x2", 1, 2), ("1x2", "2x2", 2, 1),
+        ("2x1", "2x2", 2, 1), ("1", "2x2", 2, 1), ("1x1", "2x2", 2, 1), ("2x1", "1x2", 2, 1),
+        ("2x2", "2x2", 2, 1),
+        ("2x1x2", "2x2x2", 1, 1), ("2x2", "2x2x2", 1, 1), ("1x2", "2x2x2", 1, 1), ("2x1", "2x2x2", 1, 1),
+        ("1x2x1", "2x2x2", 1, 1), ("2", "2x2x2", 1, 1),
+    }
     progs = {1: ("Mul", 1), 2: ("BcastTwice", 2), 3: ("BcastThrice", 3)}
     for xd, yd, cls in classes:
         out = G.bcast(xd, yd)
@@ -34,7 +46,7 @@ def generate(G):
         for u in (1, 2, 3):
             for passes in (1, 2):
                 prog, npart = progs[u]
-                tier = "quick" if (cls, u, passes) in quick else "thorough"
+                tier = "quick" if (G.sname(xd), G.sname(yd), u, passes) in quick else "thorough"
                 id = "c03_shape_%s_%s_u%d_p%d" % (G.sname(xd), G.sname(yd), u, passes)
                 ls = [G.leaf(xd, dom)]
                 for i in range(npart):
@@ -42,10 +54,11 @@ def generate(G):
                     ls.append(G.leaf(yd, dom, tracked=(i == 0)))
                 G.ob(id, "C03", "shape",
                      "grad::grad_passes(s, &programs::%s, %s, Seed::Explicit(Dom::%s), false, %d)" % (prog, G.leaves(ls), dom, passes),
-                     unwind=n + G.numel(xd) + 3, tier=tier, heavy=(u >= 2 or passes >= 2 or n >= 8),
+                     unwind=n + G.numel(xd) + 3, tier=tier, heavy=(n >= 6 and (u >= 2 or passes >= 2)) or n >= 8,
                      skeleton={"x": xd, "partner": yd, "class": cls, "uses": u, "passes": passes, "program": prog},
                      domains="values and per-pass seeds: %s" % dom)
-    for xd, yd, cls, tier in [([3], [2, 3], "lower-rank", "quick"), ([1, 3], [2, 3], "leading-unit", "quick"),
+    for xd, yd, cls, tier in [([2], [2, 2], "lower-rank", "quick"), ([1, 2], [2, 2], "leading-unit", "quick"),
+                              ([3], [2, 3], "lower-rank", "thorough"), ([1, 3], [2, 3], "leading-unit", "thorough"),
                               ([2, 1], [2, 3], "trailing-unit", "thorough"), ([1, 2], [2, 2, 2], "rank2-leading-unit-in-rank3", "thorough")]:
         for u in (1, 2):
             n = G.numel(yd)
